@@ -600,3 +600,25 @@ Proof.
   intros j Hj. rewrite (nth_indep _ 0 (f 0%nat)) by (rewrite map_length, seq_length; exact Hj).
   rewrite map_nth, seq_nth by exact Hj. reflexivity.
 Qed.
+
+Lemma clone_eq xs : clone xs = xs.
+Proof. reflexivity. Qed.
+
+Lemma concat_eq xs ys : concat xs ys = xs ++ ys.
+Proof. reflexivity. Qed.
+
+Lemma vnew_spec n : length (vnew n) = n /\ forall j, nth j (vnew n) 0 = 0.
+Proof.
+  unfold vnew. split; [apply repeat_length|]. intros j. revert j.
+  induction n as [|n IH]; intros [|j]; cbn [repeat nth]; try reflexivity. apply IH.
+Qed.
+
+Lemma basis_idx_spec n i j :
+  ((j < n)%nat -> basis_idx n i j = Ok (nth j (basis n i) 0)) /\
+  ((n <= j)%nat -> basis_idx n i j = Panic ($"index")).
+Proof.
+  unfold basis_idx. split; intros H.
+  - replace (Nat.leb n j) with false by (symmetry; apply Nat.leb_gt; exact H).
+    rewrite (proj2 (basis_spec n i) j H). reflexivity.
+  - replace (Nat.leb n j) with true by (symmetry; apply Nat.leb_le; exact H). reflexivity.
+Qed.
